@@ -21,6 +21,16 @@ section; ops say inst=<0|1>).  commit= / rollback= also `fail:<cls>:<i|w|b>`: th
 breaker-acceptable class (Is method / wrapping the sentinel / the bare sentinel).  statement letters r / o / w: a QueryRow
 that finds no row (ErrNotFound returned / ignored) / that the driver faults; t / T: exec / nested Transact through
 NewSessionFromTx(raw tx).  obs: `core=<ret>|-` what the request handed to the breaker returned (recording breaker only).
+round 5 — statement letters b / B: exec / query the driver fails with an error wrapping driver.ErrBadConn (returned; an
+ordinary error inside a transaction: nothing is begun or run again) · k: the driver refuses the Prepare of a statement
+prepared inside the transaction · a / A: QueryRowsPartial (checked) / QueryRowPartial that finds no row (returned) · d:
+RawDB() of a connection made from the session (must be refused; ignored).  commit= / rollback= also `fail:badconn:<i|w|b>`
+(class plain).  end= also panicint | panicstruct | panictnil (values that are neither error nor string) and err:tnil (a
+typed-nil pointer in a non-nil error: an error of class plain).  cfg: cons=<cache|node|conf> (which CachedConn
+constructor).  obs: `cv=<1|0|->` the context the body was handed carries the caller's value / does not / no context;
+log token `O<i>`: statement i reached a connection with no transaction open on it; markers `lost` (a statement's error did
+not reach the body) and `rawdbleak`.  Clauses evaluated on these raw observations: body-gets-callers-context,
+statement-outside-transaction, statement-error-reaches-body, raw-db-refused.
 -/
 import GoZero.Base.Trace
 import GoZero.C14.Spec
@@ -169,6 +179,12 @@ def parseStmt : Char → Option Stmt
   | 'r' => some { kind := .rowq, fails := false, prop := true }    -- QueryRow finds no row: ErrNotFound returned
   | 'o' => some { kind := .rowq, fails := false, prop := false }   -- … ignored
   | 'w' => some { kind := .rowq, fails := true, prop := true }     -- QueryRow faulted by the driver, returned
+  | 'b' => some { kind := .exec, fails := true, prop := true }     -- exec fault wrapping driver.ErrBadConn, returned
+  | 'B' => some { kind := .query, fails := true, prop := true }    -- query fault wrapping driver.ErrBadConn, returned
+  | 'k' => some { kind := .exec, fails := true, prop := true }     -- the driver refuses the Prepare inside the tx, returned
+  | 'a' => some { kind := .query, fails := false, prop := true }   -- QueryRowsPartial[Ctx], checked
+  | 'A' => some { kind := .rowq, fails := false, prop := true }    -- QueryRowPartial[Ctx] finds no row, returned
+  | 'd' => some { kind := .nest, fails := true, prop := false }    -- RawDB() of a connection made from the session: refused, ignored
   | 't' => some { kind := .exec, fails := false, prop := true }    -- exec through NewSessionFromTx(raw tx), checked
   | 'T' => some { kind := .nest, fails := true, prop := true }     -- nested Transact over NewSessionFromTx(raw tx)
   | _ => none
@@ -179,6 +195,8 @@ def parseStmts (s : String) : Option (List Stmt) :=
 def parseEnd (s : String) : Option End :=
   match s with
   | "ok" => some .ok | "panic" => some .panic | "panicerr" => some .panic | "panicnil" => some .panic
+  | "panicint" => some .panic | "panicstruct" => some .panic | "panictnil" => some .panic   -- neither error nor string
+  | "err:tnil" => some (.err .plain)     -- a typed-nil pointer in a non-nil error interface: an error like any other
   | "goexit" => some .ok | "panicnil1" => some .ok      -- outside the quantifier: handled apart (`Op.oq`)
   | _ =>
     match s.splitOn ":" with
@@ -196,6 +214,8 @@ def parseEndAns (s : String) : Option (Bool × Bool × Cls × String) :=
   | ["ok"] => some (true, false, .plain, "-")
   | ["fail"] => some (false, false, .plain, "-")
   | ["panic"] => some (false, true, .plain, "-")
+  | ["fail", "badconn", form] =>   -- driver.ErrBadConn: an ordinary, not acceptable error inside a transaction
+    if ["i", "w", "b"].contains form then some (false, false, .plain, "badconn-" ++ form) else none
   | ["fail", c, form] =>
     if ["i", "w", "b"].contains form then (parseCls c).bind fun c => if c == .plain then none else some (false, false, c, form)
     else none
@@ -204,6 +224,9 @@ def parseEndAns (s : String) : Option (Bool × Bool × Cls × String) :=
 def parseUA : String → Option UA
   | "none" => some {} | "user" => some { a1 := true } | "user2" => some { a2 := true }
   | "both" => some { a1 := true, a2 := true }
+  -- WithAcceptable(nil): alone it installs nothing; before a real function likewise; AFTER a real function the
+  -- pinned code installs `pre(err) || nil(err)` (see `nilAfter` below)
+  | "nil" => some {} | "niluser" => some { a1 := true } | "usernil" => some { a1 := true }
   | _ => none
 
 /-- `-` | `c<k>` | `d<k>` → (cancelAt, deadline) -/
@@ -223,6 +246,8 @@ structure Op where
   inst : Nat := 0          -- which SqlConn instance of the section the call goes to
   cform : String := "-"    -- form of the Commit / Rollback error value (coverage only)
   rform : String := "-"
+  endKind : String := "ok"  -- the `end=` token (coverage: which kind of value the body panicked with / returned)
+  letters : String := ""
   deriving Repr
 
 def parseOp (op : List String) : Option Op :=
@@ -251,7 +276,8 @@ def parseOp (op : List String) : Option Op :=
            f := { begin := bg, commit := cm.1, rollback := rb.1, badConn := bad, commitPanics := cm.2.1,
                   rollbackPanics := rb.2.1, commitCls := cm.2.2.1, rollbackCls := rb.2.2.1 },
            b := { stmts := st, fin := en, cancelAt := cn.1, deadline := cn.2 },
-           brkAllow := brk, oq := oq, inst := inst, cform := cm.2.2.2, rform := rb.2.2.2 }
+           brkAllow := brk, oq := oq, inst := inst, cform := cm.2.2.2, rform := rb.2.2.2,
+           endKind := (← kv? rest "end"), letters := (← kv? rest "stmts") }
   | _ => none
 
 def isBreakerReject (r : Result) : Bool :=
@@ -279,6 +305,25 @@ def runSection (r : Report) (s : Section) : Report := Id.run do
       let ua := if op.inst == 1 then ua1 else ua0
       let envOq : Env := { ctxDone := ctxDone, brkAllow := op.brkAllow,
                            connOk := via != "namedbad", userAccept := ua }
+      -- FINDING (informational, like the exits outside the quantifier): options `WithAcceptable(f), WithAcceptable(nil)`.
+      -- The pinned code then calls the nil function whenever f says "not acceptable": the call leaves by a nil-call
+      -- panic AFTER the transaction has ended as the model says.  With fixes/C14-withacceptable-nil.patch the nil
+      -- option is ignored and the op is checked like any other.  Both are followed.
+      let nilAfter := (if op.inst == 1 then accept1 else accept) == "usernil"
+      if nilAfter && via != "onconn" && kvStr l.obs "ret" "?" == "nilcall" then
+        let envN : Env := { envOq with ctxDead := op.api == "ctxdead" }
+        -- (an exit outside the quantifier either commits or rolls back: both are candidates)
+        let cands := if op.oq == "" then [transactCtx envN op.f op.b]
+          else [transactCtx envN op.f { op.b with fin := .ok }, transactCtx envN op.f { op.b with fin := .panic }]
+        if kvStr l.obs "esc" "?" == "1" && cands.any (fun mN => mN.mark == some false &&
+            kvStr l.obs "log" "?" == renderLog mN.log && kvStr l.obs "runs" "?" == toString mN.runs) then
+          r := r.addCover "finding-nil-option-after-function-PANICS-after-transaction-ended"
+          r := { r with ops := r.ops }
+        else
+          r := r.mismatch s.idx l.idx "a nil-call panic only where the verdict chain reaches the nil function" impl
+          r := r.violation s.idx l.idx s!"clauses=[no-orderly-return] impl=[{impl}] op=[{joinSp l.op}]"
+        continue
+      if nilAfter then r := r.addCover "nil-option-after-function-not-reached-or-ignored"
       if op.oq != "" && (via == "onconn" || envOq.admitted) && op.f.opens
           && (runStmts op.b.cancelAt op.b.deadline 0 op.b.stmts).2.isNone
           && kvStr l.obs "ret" "?" != "is:breaker/says:-" then
@@ -297,6 +342,23 @@ def runSection (r : Report) (s : Section) : Report := Id.run do
       if (((kvStr l.obs "body" "") ++ (kvStr l.obs "ret" "")).splitOn "nestran").length > 1 then
         r := r.mismatch s.idx l.idx "nested-transact-refused" impl
         r := r.violation s.idx l.idx s!"clauses=[nested-transaction-refused] impl=[{impl}] op=[{joinSp l.op}]"
+        continue
+      -- a statement that must yield an error (driver fault, nested Transact) yielded none: the body had no chance to
+      -- return it (the harness marks this `lost`)
+      if (((kvStr l.obs "body" "") ++ (kvStr l.obs "ret" "")).splitOn "lost").length > 1 then
+        r := r.mismatch s.idx l.idx "statement-error-reaches-body" impl
+        r := r.violation s.idx l.idx s!"clauses=[statement-error-reaches-body] impl=[{impl}] op=[{joinSp l.op}]"
+        continue
+      -- RawDB() of a connection made from the transaction's session must be refused (errNoRawDBFromTx)
+      if (((kvStr l.obs "body" "") ++ (kvStr l.obs "ret" "")).splitOn "rawdbleak").length > 1 then
+        r := r.mismatch s.idx l.idx "raw-db-refused" impl
+        r := r.violation s.idx l.idx s!"clauses=[raw-db-refused] impl=[{impl}] op=[{joinSp l.op}]"
+        continue
+      -- a statement of the body that reached a connection with no transaction open on it (the harness driver logs
+      -- O<i>) did not run inside the transaction
+      if ((kvStr l.obs "log" "").splitOn ",").any (fun t => t.startsWith "O") then
+        r := r.mismatch s.idx l.idx "statements-inside-the-transaction" impl
+        r := r.violation s.idx l.idx s!"clauses=[statement-outside-transaction] impl=[{impl}] op=[{joinSp l.op}]"
         continue
       match parseObs l.obs with
       | none =>
@@ -318,7 +380,13 @@ def runSection (r : Report) (s : Section) : Report := Id.run do
         let coreWant := if via == "onconn" || !(!env.ctxDone && env.brkAllow) || m.escaped then "-"
                         else renderRet (transactFn env.connOk op.f op.b).ret
         let implCore := if coreObs == "?" then impl else impl ++ " core=" ++ coreObs
-        let implMain := joinSp (l.obs.filter fun t => !t.startsWith "core=")
+        let implMain := joinSp (l.obs.filter fun t => !t.startsWith "core=" && !t.startsWith "cv=")
+        -- the context the body is handed: the caller's (TransactCtx / transactOnConn: it carries the caller's
+        -- value), none through Transact
+        let cvObs := kvStr l.obs "cv" "?"
+        let cvWant := if obs.runs == 0 || op.api == "plain" then "-" else "1"
+        if cvObs != "?" && cvObs != cvWant then r := r.mismatch s.idx l.idx s!"cv={cvWant}" impl
+        if cvObs != "?" then r := r.addCover s!"body-context-cv-{cvObs}"
         let want := m.render markSeen
         if want ≠ implMain then r := r.mismatch s.idx l.idx want impl
         else if coreObs != "?" && coreObs != coreWant then r := r.mismatch s.idx l.idx (want ++ " core=" ++ coreWant) impl
@@ -327,7 +395,8 @@ def runSection (r : Report) (s : Section) : Report := Id.run do
         let coreBad := coreObs != "?" && coreObs != "-" && !obs.escaped && coreObs != renderRet obs.ret
         let bad := Spec.violated obs ++
           (if markSeen && !Spec.breakerTold env.userAccept obs then ["breaker-told"] else []) ++
-          (if coreBad then ["wrapper-returns-core-error"] else [])
+          (if coreBad then ["wrapper-returns-core-error"] else []) ++
+          (if cvObs == "0" then ["body-gets-callers-context"] else [])
         if !bad.isEmpty then
           r := r.violation s.idx l.idx s!"clauses=[{",".intercalate bad}] impl=[{impl}] op=[{joinSp l.op}]"
         -- coverage
@@ -343,6 +412,21 @@ def runSection (r : Report) (s : Section) : Report := Id.run do
           | some e => renderSrcs (e.is.map fun | .stmt _ => .stmt 0 | x => x) ++ "/" ++
                       renderSrcs (e.says.map fun | .stmt _ => .stmt 0 | x => x)))
         r := r.addCover ("mark-" ++ renderMark m.mark)
+        -- round 5: kinds of values a body ends with, ErrBadConn inside the transaction, more session methods
+        if m.runs == 1 then
+          match m.body with
+          | .panic => r := r.addCover s!"body-panic-kind-{op.endKind}-rollback-{if op.f.rollbackOk then "ok" else "fails"}"
+          | .err _ => if op.endKind == "err:tnil" then r := r.addCover "body-error-typed-nil-pointer"
+          | _ => pure ()
+        for (c, name) in [('b', "stmt-exec-fault-ErrBadConn"), ('B', "stmt-query-fault-ErrBadConn"),
+            ('k', "stmt-prepare-refused-in-tx"), ('a', "stmt-QueryRowsPartial"), ('A', "stmt-QueryRowPartial-norows"),
+            ('d', "stmt-RawDB-of-session-conn-refused")] do
+          if op.letters.toList.contains c then r := r.addCover name
+        if m.runs == 1 && op.letters.toList.any (fun c => c == 'b' || c == 'B') &&
+            (match m.body with | .err e => (match e.is with | [.stmt _] => true | _ => false) | _ => false) then
+          r := r.addCover "body-returned-ErrBadConn-no-second-transaction"
+        if via == "cached" then r := r.addCover ("cached-constructor-" ++ kvStr s.cfg "cons" "cache")
+        if via == "cached" && kvStr s.cfg "reuse" "0" == "1" then r := r.addCover "cached-conn-reused-over-the-section"
         -- round 4: the acceptable-error classes at every place an error can come from
         r := r.addCover ("accept-" ++ (if op.inst == 1 then accept1 else accept))
         if op.inst == 1 then r := r.addCover "second-instance"
